@@ -43,6 +43,9 @@ func (p *c15Proc) OnEnd(ReadOnlySpan) {
 	p.l.ev = append(p.l.ev, p.id+".OnEnd")
 }
 func (p *c15Proc) Shutdown(context.Context) error {
+	if p.yield {
+		sched.Yield("processor Shutdown", p)
+	}
 	p.shuts++
 	p.l.ev = append(p.l.ev, p.id+".Shutdown")
 	return nil
@@ -403,6 +406,9 @@ func c15ConcBody(sc c15Conc, res *string) func(x *sched.Exec) {
 			tp.RegisterSpanProcessor(p2)
 			tp.RegisterSpanProcessor(p3)
 		}
+		if sc.variant == "recY" { // recording processors with a scheduling point in every call; p2, p3 registered by ops
+			rec1.yield, p2.yield = true, true
+		}
 		tr := tp.Tracer("t")
 		var pre []interface{ End() }
 		for _, ops := range sc.threads {
@@ -447,6 +453,8 @@ func c15ConcBody(sc c15Conc, res *string) func(x *sched.Exec) {
 						tp.UnregisterSpanProcessor(p1)
 					case "Reg2":
 						tp.RegisterSpanProcessor(p2)
+					case "Reg3":
+						tp.RegisterSpanProcessor(p3)
 					case "Span":
 						_, sp := tp.Tracer("n").Start(context.Background(), "s")
 						sp.End()
@@ -462,8 +470,47 @@ func c15ConcBody(sc c15Conc, res *string) func(x *sched.Exec) {
 			nilShutdowns += o.nilSD
 		}
 		n1 := rec1.shuts
-		if sc.variant != "rec" && sc.variant != "rec3" {
+		if sc.variant != "rec" && sc.variant != "rec3" && sc.variant != "recY" {
 			n1 = exp.shuts
+		}
+		if sc.variant == "recY" {
+			// membership after the join: every Register / Unregister has returned, so one more span
+			// reaches exactly the processors registered and not unregistered, and the provider's
+			// Shutdown shuts exactly those down (an unregistered one was shut down by Unregister)
+			has := func(op string) bool {
+				for _, ops := range sc.threads {
+					for _, o := range ops {
+						if o == op {
+							return true
+						}
+					}
+				}
+				return false
+			}
+			procs := []*c15Proc{rec1, p2, p3}
+			member := []bool{!has("Unreg1"), has("Reg2"), has("Reg3")}
+			before := []int{rec1.ends, p2.ends, p3.ends}
+			_, sp := tp.Tracer("after").Start(context.Background(), "after the join")
+			sp.End()
+			for i, pr := range procs {
+				want := 0
+				if member[i] {
+					want = 1
+				}
+				if pr.ends-before[i] != want {
+					x.Fail("C15|span-not-delivered-to-exactly-the-registered-processors|concurrent", "after Register/Unregister calls returned (registered: p1=%v p2=%v p3=%v) a span ended: %s.OnEnd ran %d times", member[0], member[1], member[2], pr.id, pr.ends-before[i])
+				}
+			}
+			_ = tp.Shutdown(context.Background())
+			for i, pr := range procs {
+				want := 0
+				if member[i] || (i == 0 && has("Unreg1")) {
+					want = 1
+				}
+				if pr.shuts != want {
+					x.Fail("C15|registered-processor-not-shut-down-exactly-once|concurrent", "registered: p1=%v p2=%v p3=%v, then provider Shutdown: %s was shut down %d times", member[0], member[1], member[2], pr.id, pr.shuts)
+				}
+			}
 		}
 		if sc.variant == "rec3" {
 			ended := 0
@@ -513,6 +560,8 @@ func c15ConcJobs(thorough bool) []c15Conc {
 		{2, 0, "X4-blocking-batch-end-end-shutdown", "batch(E)", [][]string{{"End"}, {"End"}, {"Shutdown"}}, true},
 		{1, 1, "X5-batch-shutdown-unreg", "batch(E)", [][]string{{"Shutdown"}, {"Unreg1"}, {"End"}}, false},
 		{2, 0, "X8-unreg-first-of-three-during-end", "rec3", [][]string{{"Unreg1"}, {"End"}, {"Span"}}, false},
+		{2, 0, "X9-register-during-unregister", "recY", [][]string{{"Unreg1"}, {"Reg2"}}, false},
+		{2, 0, "X10-two-registers-during-unregister", "recY", [][]string{{"Unreg1"}, {"Reg2"}, {"Reg3"}}, false},
 	}
 	if thorough {
 		js = append(js,
